@@ -257,6 +257,15 @@ instantiate(const CPPTemplateParameterList *actual_params,
             CPPScope *current_scope, CPPScope *global_scope,
             CPPPreprocessor *error_sink) const {
 
+  if (_template_scope != nullptr) {
+    // An alias template: the arguments replace its own parameters in the
+    // type it stands for (they are not arguments of that type).
+    SubstDecl subst;
+    actual_params->build_subst_decl(_template_scope->_parameters, subst,
+                                    current_scope, global_scope);
+    return _type->substitute_decl(subst, current_scope, global_scope);
+  }
+
   return _type->instantiate(actual_params, current_scope, global_scope, error_sink);
 }
 
